@@ -92,7 +92,7 @@ fn compare(script: &Script, a: &Trace, b: &Trace, rep: &mut Report) -> u64 {
 pub fn run(ctx: &Ctx, rng: Rng, rep: &mut Report) {
     let prof = profile("C19");
     let histories = ctx.n(ctx.quick_n.unwrap_or(60), ctx.thorough_n.unwrap_or(1500));
-    let asyncs = flavors_for(ctx, &[Flavor::Async(Exec::TokioMt), Flavor::Async(Exec::ThreadPerTask), Flavor::Async(Exec::TokioCt), Flavor::Async(Exec::AsyncStd)], &ALL_ASYNC);
+    let asyncs = flavors_for(ctx, &[Flavor::Async(Exec::TokioMt), Flavor::Async(Exec::Seeded), Flavor::Async(Exec::ThreadPerTask), Flavor::Async(Exec::TokioCt), Flavor::Async(Exec::AsyncStd)], &ALL_ASYNC);
     let isz = item_size();
     let watchdog = Duration::from_secs(if ctx.thorough() { 300 } else { 120 });
     'outer: for h in 0..histories {
@@ -127,6 +127,10 @@ pub fn run(ctx: &Ctx, rng: Rng, rep: &mut Report) {
                 rep.count(&format!("diff_pairs_sync_vs_{}", fl.name()));
                 rep.add("diff_callbacks_compared", tr.obs.iter().map(|o| events_key(o).len() as u64).sum());
                 rep.add("diff_ticks", tr.obs.iter().filter(|o| o.tick_at.is_some()).count() as u64);
+                if fl == Flavor::Async(Exec::Seeded) {
+                    rep.fingerprints.insert(crate::driver::seeded::ORDER_HASH.load(std::sync::atomic::Ordering::Relaxed));
+                    rep.add("diff_seeded_executor_task_polls", crate::driver::seeded::POLLS.swap(0, std::sync::atomic::Ordering::Relaxed));
+                }
             }
             if stop {
                 break 'outer;
